@@ -299,7 +299,7 @@ func (ld *Loaded) initOpaque(fn *ssa.Function) bool {
 	p := fn.Pkg.Pkg.Path()
 	switch {
 	case strings.HasPrefix(p, "github.com/prometheus/"), p == "os", p == "crypto/rand", p == "reflect", p == "regexp",
-		strings.HasPrefix(p, "regexp/"), p == "net", p == "net/http", p == "time", strings.HasPrefix(p, "crypto/"),
+		strings.HasPrefix(p, "regexp/"), p == "net", p == "net/http", strings.HasPrefix(p, "crypto/"),
 		p == "encoding/json", p == "text/template", p == "html/template", p == "os/user", p == "syscall", p == "runtime",
 		strings.HasPrefix(p, "google.golang.org/"), strings.HasPrefix(p, "golang.org/x/"), strings.HasPrefix(p, "github.com/aws/"):
 		return true
